@@ -12,8 +12,8 @@ pub fn def() -> PropDef {
         name: "elector",
         cfg_len: 0,
         tape_max: 120,
-        quick: 60_000,
-        thorough: 6_000_000,
+        quick: 300_000,
+        thorough: 20_000_000,
         max_shrink_iters: 1000,
         run: run_elector,
     }];
